@@ -111,3 +111,7 @@ for _p in ("C02", "C03", "C04", "C05"):
     PROPS[_p]["shrink_args"] = _L1_ARGS
 for _p in ("C08", "C14", "C15", "C16", "C17", "C18", "C19"):
     PROPS[_p]["shrink_args"] = _DB_ARGS
+
+PROPS["C28"] = P("exploration", "Each evaluation is one seeded plan on a 1-3 node cluster (ReplicaN 1-2): for each of set/mutex/bool/time/int a pair of twin fields with identical options; every logical write (bit set/clear with optional timestamp, integer value set/clear) is applied to both twins through independently drawn paths (Set/Clear PQL, Import set/clear by ids, ImportValue, ImportRoaring in Pilosa or official encoding into the standard view or into every time view of the timestamp); expression trees, Count, Sum/Min/Max, Rows (with time ranges) and TopN(ids) are then run on both twins; the two answers must be equal and equal to the model.", L4_REAL, L4_STUB, budget=(45, 900))
+PROPS["C28"]["shrink_args"] = {}
+MAN["C28"] = {"text": "Seeded exploration of path mixtures on twin fields of simulated clusters; twin answers compared with each other and with the model.", "note": "Import by keys is covered by C24/C30; clears on time fields only through Clear() (timestamped clear-imports are rejected by design)."}
